@@ -1250,6 +1250,11 @@ fn run_strings(c: &mut Ctx, special: &[(i64, u32)]) {
                 Ok(_) => c.fail(F_C, &format!("NaiveTime {:?} -> {:?}", t, a)),
                 Err(()) => c.fail("NaiveTime round trip panics", &format!("{:?}", t)),
             }
+            // what F22 is, exactly (theorem time_roundtrip_nonstrict): the following second, fraction - 10^9
+            let want = mk_time(t.num_seconds_from_midnight() + 1, t.nanosecond() - 1_000_000_000);
+            if !matches!(&a, Ok(Ok(x)) if *x == want) || via_bin::<_, NaiveTime>(&t).ok().and_then(|r| r.ok()) != Some(want) {
+                c.fail("leap representation off second :59 is not read back as the following second", &format!("NaiveTime {:?} -> {:?}", t, a));
+            }
         }
     }
     // NaiveDateTime
@@ -1276,6 +1281,11 @@ fn run_strings(c: &mut Ctx, special: &[(i64, u32)]) {
                 Ok(Ok(x)) if *x == nd => c.count("leap-on-other-second:datetime:kept"),
                 Ok(_) => c.fail(F_C, &format!("NaiveDateTime {:?} -> {:?}", nd, a)),
                 Err(()) => c.fail("NaiveDateTime round trip panics", &format!("{:?}", nd)),
+            }
+            // theorem naive_roundtrip_nonstrict: same date, the following second, fraction - 10^9 (same instant)
+            let want = nd.date().and_time(mk_time(nd.time().num_seconds_from_midnight() + 1, nd.time().nanosecond() - 1_000_000_000));
+            if !matches!(&a, Ok(Ok(x)) if *x == want && inst_ns(x) == inst_ns(&nd)) {
+                c.fail("leap representation off second :59 is not read back as the following second", &format!("NaiveDateTime {:?} -> {:?}", nd, a));
             }
         }
     }
